@@ -170,7 +170,13 @@ class SimDevice(object):
             else:
                 self.challenge()
         elif kind == 3:    # public key
-            if auth.get("pubkey_ok", True):
+            reply = auth.get("pubkey_reply")
+            if reply == "auth":              # adbd re-challenges while its confirmation dialog is open, and never connects
+                self.challenge()
+            elif reply == "auth_then_cnxn":
+                self.challenge()
+                self.send_cnxn()
+            elif auth.get("pubkey_ok", True):
                 self.send_cnxn()
 
     # --- streams --------------------------------------------------------------------------------------
